@@ -102,8 +102,13 @@ void harness(void)
 {
     static const char seq[] = SEQ; OBJ_T o[2]; int live[2] = {0, 0}; uint8_t out[NB * BLK];
     HARNESS_BEGIN();
-    sym_inputs();
-    for (int i = 0; i < MAXBLK; i++) ASSUME(sym_allocfail[i] == 0);
+    /* the data of a life-cycle sequence is concrete: by C08 no branch and no address of the library depends on key,
+       tweak, counter or data bytes, so allocation, release and return-value behaviour cannot depend on them either;
+       symbolic data here would only make the solver re-derive the ciphers (measured: > 15 min per sequence) */
+    for (unsigned i = 0; i < sizeof sym_key; i++) sym_key[i] = (uint8_t)(0x11 * i + 7);
+    for (unsigned i = 0; i < sizeof sym_data; i++) sym_data[i] = (uint8_t)(0x35 * i + 1);
+    for (unsigned i = 0; i < sizeof sym_tw; i++) sym_tw[i] = (uint8_t)(0x5b * i + 3);
+    SYM_VAL(sym_has128); SYM_VAL(sym_has256);           /* which back end serves the objects stays symbolic */
     memset(o, 0, sizeof o);
     for (unsigned s = 0; s + 1 < sizeof seq; s++) {
         char c = seq[s]; int k = (c >= 'a'); char u = (char)(k ? c - 32 : c); int r;
